@@ -150,8 +150,22 @@ class FixRotSuite(common.Suite):
         k = 150 if tier == "quick" else 2500
         for i in range(k):
             collinear = (i % 25 == 24)
+            nearlinear = (i % 6 == 5) and not collinear
             n = rng.randint(3, 10)
-            if collinear:
+            if nearlinear:
+                # non-collinear, but close to it (CO2 / HCN a degree or two from linear, a slightly kinked chain): the
+                # inertia tensor is invertible with I_min/I_max between 1e-6 and 1e-3 — inside the property
+                n = rng.randint(3, 5)
+                d = np.array([rng.gauss(0, 1) for _ in range(3)])
+                d /= np.linalg.norm(d)
+                e1 = np.cross(d, [1.0, 0.3, -0.2])
+                e1 /= np.linalg.norm(e1)
+                e2 = np.cross(d, e1)
+                o = np.array([rng.uniform(-3, 3) for _ in range(3)])
+                h = 10 ** rng.uniform(-3, -1.5)
+                pos = [(o + (1.3 * j + rng.uniform(-0.2, 0.2)) * d + h * rng.uniform(-1, 1) * e1
+                        + h * rng.uniform(-1, 1) * e2).tolist() for j in range(n)]
+            elif collinear:
                 n = rng.randint(2, 4)
                 d = [rng.gauss(0, 1) for _ in range(3)]
                 o = [rng.uniform(-3, 3) for _ in range(3)]
@@ -170,6 +184,7 @@ class FixRotSuite(common.Suite):
                 r = np.array(pos) - com_of(pos, masses)
                 mom = (np.array(masses)[:, None] * (np.cross(w, r) + v)).tolist()
             yield {"symbols": ["Cu"] * n, "positions": pos, "masses": masses, "momenta": mom, "collinear": collinear,
+                   "nearlinear": nearlinear,
                    "via": rng.choice(["direct", "set_momenta"])}
 
     def real(self, case):
@@ -233,7 +248,7 @@ class FixRotSuite(common.Suite):
         sp = max(obs["scale_P"], 1e-300)
         la = float(np.abs(np.array(obs["L_after"])).max())
         dp = float(np.abs(np.array(obs["dP"])).max())
-        if la > 1e-9 * sl:
+        if la > 1e-9 * sl * max(1.0, obs.get("cond", 1.0) * 1e-5):      # inverse of an ill-conditioned tensor: cond * eps
             out.append((f"fixrot:angular-momentum:{case['via']}", f"|L| after = {la:.3e} (before {np.abs(np.array(obs['L_before'])).max():.3e}, scale {sl:.3e})"))
         if dp > 1e-9 * sp:
             out.append((f"fixrot:linear-momentum:{case['via']}", f"|dP| = {dp:.3e} (scale {sp:.3e})"))
@@ -242,7 +257,7 @@ class FixRotSuite(common.Suite):
     def classify(self, case, obs):
         if case["collinear"]:
             return "collinear:" + ("exception" if "exception" in obs else "no-exception")
-        return f"{case['via']}:n={'3' if len(case['symbols']) == 3 else '>3'}"
+        return f"{case['via']}:n={'3' if len(case['symbols']) == 3 else '>3'}{':near-linear' if case.get('nearlinear') else ''}"
 
 
 # ============================================================================ histories: shared machinery
